@@ -444,6 +444,12 @@ Proof.
   - cbn [pst]. destruct (durable c && p); assumption.
 Qed.
 
+Lemma fold_set_key_In : forall ks d x, In x (fold_left set_key ks d) <-> In x ks \/ In x d.
+Proof.
+  induction ks as [| k ks IH]; intros d x; cbn [fold_left]; [cbn; tauto|].
+  rewrite IH, set_key_In. cbn. intuition.
+Qed.
+
 Lemma step_purge : forall c s g, Inv c s g -> hyp_step c s Purge = true ->
   Inv c (snd (q_purge c s)) (ghost_step g Purge) /\ fst (q_purge c s) = Z.of_nat (length (g_list g)).
 Proof.
@@ -464,8 +470,15 @@ Proof.
   - reflexivity.
   - constructor.
   - rewrite Forall_forall in *. intros k Hk. apply inv_disk_ids0. unfold st_all in *. rewrite !in_app_iff in *.
-    destruct (durable c); [| tauto]. cbn [store_purge s_add s_upd s_del s_flushed In] in Hk. tauto.
-  - destruct (durable c); assumption.
+    destruct (durable c); [| tauto]. cbn [store_purge s_add s_upd s_del s_flushed In] in Hk. rewrite fold_set_key_In in Hk. tauto.
+  - destruct (durable c); [| assumption]. cbn [store_purge s_upd s_del app].
+    rewrite Forall_forall in *. intros k Hk. apply fold_set_key_In in Hk. destruct Hk as [Hk | Hk].
+    + (* a pending add that the purge cancels: the queue is not swapped, so nothing on disk is ahead of lastMem *)
+      assert (Hi : In k (allids s)) by (apply inv_disk_ids0; unfold st_all; rewrite !in_app_iff; tauto).
+      specialize (inv_notsw0 k Hi). unfold disk_ahead, on_disk in inv_notsw0.
+      apply inb_In in Hk. rewrite Hk in inv_notsw0. cbn [orb] in inv_notsw0. rewrite andb_true_r in inv_notsw0.
+      apply N.ltb_ge in inv_notsw0. exact inv_notsw0.
+    + apply inv_settle0. apply in_or_app. right. exact Hk.
   - intros _. rewrite Forall_forall. exact Hon.
   - intros Hs. congruence.
   - destruct inv_fl0. destruct (durable c); split; try assumption. cbn. constructor.
@@ -1332,12 +1345,10 @@ Proof.
     + intros k Hk. destruct (durable c && p); cbn [store_del s_add s_flushed] in *; apply Haf; assumption.
   - (* Purge *)
     unfold q_purge. cbn [snd fst pst]. cbn [hyp_r_step] in Hh. apply andb_true_iff in Hh. destruct Hh as [_ Hh]. split.
-    + intros Hd k. rewrite Hd in *. cbn [negb orb] in Hh. apply andb_true_iff in Hh. destruct Hh as [Hh Hout].
-      apply andb_true_iff in Hh. destruct Hh as [Ha Hu].
-      destruct (s_add (pst s)) eqn:Ea; [| discriminate]. destruct (s_upd (pst s)) eqn:Eu; [| discriminate].
-      rewrite live_iff. cbn [store_purge s_add s_upd s_del s_flushed]. rewrite Ea, Eu. cbn [In].
-      rewrite forallb_forall in Hout. split; [tauto|]. intros [A [[] | B]]. specialize (Hout k B).
-      apply negb_true_iff in Hout. apply inb_false in Hout. contradiction.
+    + intros Hd k. rewrite Hd in *. cbn [negb orb] in Hh.
+      rewrite live_iff. cbn [store_purge s_add s_upd s_del s_flushed In]. rewrite fold_set_key_In.
+      rewrite forallb_forall in Hh. split; [tauto|]. intros [A [[] | B]]. specialize (Hh k B).
+      apply negb_true_iff in Hh. apply inb_false in Hh. contradiction.
     + intros k Hk. destruct (durable c); cbn [store_purge s_add s_flushed] in *; [tauto | apply Haf; assumption].
   - (* Loader *)
     assert (E : pst (q_loader c s) = pst s) by (unfold q_loader; destruct (loader_proceeds c s); reflexivity).
